@@ -120,6 +120,27 @@ def gen_set(r, dots_ok):
             f["refs"].append(("module", "verif_c07_mod", None))
         if f["inherit"] and r.random() < 0.7:
             f["refs"].append(("self_shared", None, None))
+    # twin references: the same bare relative spelling written in two templates of different directories that are
+    # rendered in ONE render (the first includes the second), meaning a different file in each - whatever is cached
+    # per render or per lookup under the spelling alone mixes them up
+    if r.random() < 0.4:
+        order = {f["path"]: i for i, f in enumerate(files[:-1])}
+        cands = []
+        for i, a in enumerate(files[:-1]):
+            for j, b in enumerate(files[:-1]):
+                da, db = posixpath.dirname(a["path"]), posixpath.dirname(b["path"])
+                if i < j and da != db:
+                    for nm in ("u", "v", "w", "p", "q"):
+                        ta, tb = posixpath.join(da, nm + ".html"), posixpath.join(db, nm + ".html")
+                        if order.get(ta, -1) > j and order.get(tb, -1) > j:
+                            cands.append((a, b, nm, ta, tb))
+        if cands:
+            a, b, nm, ta, tb = r.choice(cands)
+            kind = r.choice(["api_ns", "api_ns", "api_tpl", "api_inc", "ns_tag", "include"])
+            a["refs"].append((kind, nm + ".html", ta))
+            a["refs"].append(("include", rel_spelling(r, a["path"], b["path"], dots_ok), b["path"]))
+            b["refs"].append((kind, nm + ".html", tb))
+            a["refs"].append((kind, nm + ".html", ta))
     return files
 
 
